@@ -174,7 +174,14 @@ def _body_wo_doc(fn):
                 and s.value.func.attr in ("debug", "info", "warning") and "log" in ast.unparse(s.value.func.value).lower():
             continue
         out.append(s)
+    if len(out) == 1 and _is_reraising_try(out[0]):
+        return list(out[0].body)     # `try: BODY except ..: raise ..` computes what BODY computes (only the exception type differs)
     return out
+
+
+def _is_reraising_try(s) -> bool:
+    return isinstance(s, ast.Try) and not s.orelse and not s.finalbody and s.handlers and \
+        all(h.body and isinstance(h.body[-1], ast.Raise) and not any(isinstance(x, (ast.Return, ast.Assign, ast.AugAssign)) for b_ in h.body for x in ast.walk(b_)) for h in s.handlers)
 
 
 def _inlinable_shape(fn: ast.FunctionDef) -> bool:
@@ -186,8 +193,12 @@ def _inlinable_shape(fn: ast.FunctionDef) -> bool:
     if a.vararg or a.kwarg or a.posonlyargs and False:
         return False
     n_stmts = 0
+    top = [s_ for s_ in fn.body if not (isinstance(s_, ast.Expr) and isinstance(s_.value, ast.Constant))]
+    wrapper = top[0] if len(top) == 1 and _is_reraising_try(top[0]) else None
     for n in ast.walk(fn):
-        if n is fn:
+        if n is fn or n is wrapper:
+            continue
+        if wrapper is not None and any(n is h or any(n is x for x in ast.walk(h)) for h in wrapper.handlers):
             continue
         if isinstance(n, (ast.FunctionDef, ast.AsyncFunctionDef, ast.ClassDef, ast.Lambda, ast.Yield, ast.YieldFrom, ast.Global, ast.Nonlocal, ast.Await, ast.Try, ast.With)):
             return False
@@ -711,6 +722,17 @@ class Normalizer:
         return out, changed
 
     def _expand_comprehension(self, s, mod, cls, self_name):
+        if isinstance(s, ast.Return) and isinstance(s.value, ast.ListComp) and len(s.value.generators) == 1:
+            # return [..helper(..) for ..]  ->  result = [..] ; return result   (then expanded like an assignment)
+            k = self._fresh()
+            nm = f"result__c{k}"
+            asg = ast.copy_location(ast.Assign(targets=[ast.Name(id=nm, ctx=ast.Store())], value=s.value, lineno=s.lineno, col_offset=s.col_offset), s)
+            exp = self._expand_comprehension(asg, mod, cls, self_name)
+            if exp is None:
+                return None
+            ret = ast.copy_location(ast.Return(value=ast.Name(id=nm, ctx=ast.Load())), s)
+            ast.fix_missing_locations(ret)
+            return exp + [ret]
         if not (isinstance(s, (ast.Assign, ast.AnnAssign)) and isinstance(s.value, ast.ListComp) and len(s.value.generators) == 1):
             return None
         t = s.targets[0] if isinstance(s, ast.Assign) and len(s.targets) == 1 else (s.target if isinstance(s, ast.AnnAssign) else None)
@@ -782,8 +804,13 @@ class Normalizer:
             if len(found) != 1:
                 continue   # several helper calls in one expression: evaluation order would have to be preserved
             node, parent, pfield, pidx, (h, recv) = found[0]
-            # other calls in the same expression could observe the helper's effects in a different order
-            others = [x for x in ast.walk(getattr(owner, field)) if isinstance(x, ast.Call) and x is not node and not any(x is y for y in ast.walk(node))]
+            # calls evaluated BEFORE the helper in the same expression would be reordered by the hoist: none allowed
+            # (calls that take the helper's result as an argument, or that come later, run after it either way)
+            def _pos(n_):
+                return (getattr(n_, "lineno", 0), getattr(n_, "col_offset", 0))
+            others = [x for x in ast.walk(getattr(owner, field)) if isinstance(x, ast.Call) and x is not node and not any(x is y for y in ast.walk(node))
+                      and not any(node is y for y in ast.walk(x)) and _pos(x) < _pos(node)
+                      and not (isinstance(x.func, ast.Name) and x.func.id in PURE_BUILTINS)]
             if others:
                 continue
             k = self._fresh()
@@ -877,6 +904,7 @@ class Normalizer:
                                 any_change |= self._nested(c, mod, st.name, self_name)
             if not any_change:
                 break
+        self._drop_absorbed()
         known_locals = load_locals()
 
         def each(fn, qual, cls_node):
@@ -896,6 +924,53 @@ class Normalizer:
                         if isinstance(c, ast.FunctionDef):
                             key = c.name + ".setter" if any(ast.unparse(d).endswith(".setter") for d in c.decorator_list) else c.name
                             each(c, f"{st.name}.{key}", st)
+
+    def _drop_absorbed(self):
+        """A helper whose every call site was inlined no longer takes part in the program: its definition is removed,
+        so that whole-program rules (who may write X, who draws random numbers) do not see the same code twice."""
+        if not (self.helpers_fn or self.helpers_m):
+            return
+        remaining = set()
+        for mod, tree in self.trees.items():
+            for st in tree.body:
+                scopes = []
+                if isinstance(st, ast.FunctionDef):
+                    scopes.append((st, None, None))
+                elif isinstance(st, ast.ClassDef):
+                    for c in st.body:
+                        if isinstance(c, ast.FunctionDef):
+                            params = [x.arg for x in c.args.posonlyargs + c.args.args]
+                            sn = params[0] if params and not any(ast.unparse(d) == "staticmethod" for d in c.decorator_list) else None
+                            scopes.append((c, st.name, sn))
+                else:
+                    scopes.append((st, None, None))
+                for node, cls, sn in scopes:
+                    for x in ast.walk(node):
+                        if isinstance(x, ast.Call):
+                            r = self.resolve(x, mod, cls, sn)
+                            if r is not None:
+                                remaining.add(r[0].qual)
+                        # a helper passed around as a value (callback) is still in use
+                        if isinstance(x, ast.Attribute) and isinstance(x.ctx, ast.Load):
+                            for h in self.helpers_m.values():
+                                if x.attr == h.name:
+                                    remaining.add(h.qual) if not any(isinstance(p_, ast.Call) and p_.func is x for p_ in ast.walk(node)) else None
+                        if isinstance(x, ast.Name) and isinstance(x.ctx, ast.Load):
+                            for h in self.helpers_fn.values():
+                                if x.id == h.name and not any(isinstance(p_, ast.Call) and p_.func is x for p_ in ast.walk(node)):
+                                    remaining.add(h.qual)
+        for (mod, name), h in list(self.helpers_fn.items()):
+            if h.qual not in remaining and any("`" + h.qual + "`" in l for l in self.log):
+                tree = self.trees[mod]
+                tree.body = [s_ for s_ in tree.body if s_ is not h.node]
+                self.log.append(f"H {mod}: helper `{h.qual}` absorbed by its callers (definition dropped)")
+        for (cls, name), h in list(self.helpers_m.items()):
+            if h.qual not in remaining and any("`" + h.qual + "`" in l for l in self.log):
+                for tree in self.trees.values():
+                    for st in tree.body:
+                        if isinstance(st, ast.ClassDef) and st.name == cls:
+                            st.body = [s_ for s_ in st.body if s_ is not h.node] or [ast.Pass()]
+                self.log.append(f"H {h.module}: helper `{h.qual}` absorbed by its callers (definition dropped)")
 
     def _nested(self, fn, mod, cls, self_name) -> bool:
         ch_any = False
